@@ -430,9 +430,9 @@ Proof. vm_compute. reflexivity. Qed.
 (* fn g<T>(x: T) { let cl = fn() -> T { return x } }: the lambda (name 7) is a non-generic function
    whose parameter (the environment) and local mention T0 *)
 Definition w_closure_in_generic : mprog :=
-  mkmp [mkmfn (NPlain 7) [] [(0, TPtr (TStruct 8))] (TParam 0) [(1, TParam 0)] [] one_block;
-        mkmfn (NPlain 2) [0] [(0, TParam 0)] (TParam 0) [(0, TParam 0)] [] one_block;
-        mkmfn (NPlain 1) [] [] T_I64 [(0, T_I64)] [MCall (NPlain 2) [AConst T_I64]] one_block]
+  mkmp [mkmfn (NPlain 7) [] [(0, TPtr (TStruct 8))] (TParam 0) [(1, TParam 0)] [] one_block false;
+        mkmfn (NPlain 2) [0] [(0, TParam 0)] (TParam 0) [(0, TParam 0)] [] one_block false;
+        mkmfn (NPlain 1) [] [] T_I64 [(0, T_I64)] [MCall (NPlain 2) [AConst T_I64]] one_block false]
        [mkms (NPlain 8) [] [TParam 0]] [].
 Lemma closure_in_generic_excluded :
   mono_input_ok w_closure_in_generic = false /\ wf_mono w_closure_in_generic (monomorphize w_closure_in_generic) = false.
